@@ -53,6 +53,8 @@ def instr_text(ins):
         return "later %d %s" % (ins["ms"], instr_text(ins["then"]))
     if i == "susp":
         return "susp %s" % instr_text(ins["then"])
+    if i in ("csend", "cqueue"):
+        return "%s /%s %d" % (i, ins["target"], ins["v"])
     raise ValueError(ins)
 
 
